@@ -344,6 +344,16 @@ def q_grad(ds, m, ctx, where, g, rows):
     ug = ds.unnormalize_grad(vec.copy())
     ctx.check(np.shape(ug) == vec.shape and close(ug, vec * sinv, 8 * EPS * np.abs(vec * sinv)), "grad_scaling",
               f"unnormalize_grad({vec.tolist()})={np.asarray(ug).tolist()}, expected {(vec * sinv).tolist()}", at=where)
+    if rows:
+        # sparse (CSR) Jacobians follow the same scaling as dense ones
+        from scipy.sparse import csr_array
+
+        ctx.cls("sparse_jacobian_scaled")
+        for label, fun, expected in (("normalize_grad", ds.normalize_grad, vec * s), ("unnormalize_grad", ds.unnormalize_grad, vec * sinv)):
+            got = fun(csr_array(vec))
+            dense = np.asarray(got.todense()) if hasattr(got, "todense") else np.asarray(got)
+            ctx.check(dense.shape == vec.shape and close(dense, expected, 8 * EPS * np.abs(expected)), "grad_scaling",
+                      f"{label}(CSR of {vec.tolist()})={dense.tolist()}, expected {expected.tolist()} (scale {s.tolist()}, integer={m.integer_mask().tolist()})", at=where)
 
 
 def q_current(ds, m, ctx, where, normalize, as_dict):
